@@ -57,6 +57,7 @@ public:
    Chunk *GetNext(const E_Scope scope = E_Scope::ALL) const;
    Chunk *GetPrev(const E_Scope scope = E_Scope::ALL) const;
    Chunk *GetNextNc(const E_Scope scope = E_Scope::ALL) const;
+   Chunk *GetNextNl(const E_Scope scope = E_Scope::ALL) const;
    Chunk *GetPrevNc(const E_Scope scope = E_Scope::ALL) const;
    Chunk *GetPpStart() const;
    Chunk *GetNextNcNnl(const E_Scope scope = E_Scope::ALL) const;
